@@ -1,6 +1,7 @@
 package main
 
 import (
+	"fmt"
 	"bufio"
 	"flag"
 	"math"
@@ -206,7 +207,7 @@ func c10Line(work, line string, lineNo, slots int) {
 			dsummEnd, umsEnd = g.DSUMM, g.UMS
 		}
 	}
-	res := runProject(work, splitArgs(line))
+	res := c10RunRecover(work, line)
 	hermes.VerifProbe = nil
 	emit(jobj{"k": "run", "line": lineNo, "success": res.Success, "err": res.Err, "days": days, "substeps_gt1": nitroOther,
 		"regen_unexplained": regenUnexpl, "dsumm_unexplained": dsummUnexpl, "overnight_changes": overnight, "overnight_first": overnightFirst})
@@ -266,4 +267,14 @@ func c10DuengCmd(args []string) {
 			emit(jobj{"k": "dueng", "name": nm, "dgmg": hx(q), "ndir": hx(g.NDIR[i]), "nh4n": hx(g.NH4N[i]), "nsas": hx(g.NSAS[i]), "nlas": hx(g.NLAS[i])})
 		}
 	}
+}
+
+// c10RunRecover runs one batch line; a panic inside the simulator ends that run only (reported as its error)
+func c10RunRecover(work, line string) (res runResult) {
+	defer func() {
+		if r := recover(); r != nil {
+			res = runResult{Success: false, Err: fmt.Sprintf("panic: %v", r)}
+		}
+	}()
+	return runProject(work, splitArgs(line))
 }
